@@ -241,3 +241,31 @@ harness(prop="C20", target="geckolib.driver.spastruct:GeckoStructure._on_status_
         name="handshake_reassembly_step")(c01_transfer.sync_segment_step)
 harness(prop="C20", target="geckolib.driver.spastruct:GeckoStructure.retry_request",
         name="handshake_request_establishes_invariant")(c01_transfer.sync_request_establishes_invariant)
+
+
+class Answered:
+    calls = []
+
+
+def on_answer(handler, sender):
+    Answered.calls.append(sender)
+
+
+@harness(prop="C20", target="geckolib.driver.udp_protocol_handler:GeckoUdpProtocolHandler.handled", name="answered_request_is_never_retransmitted")
+def answered_request_is_never_retransmitted(retries: int, timeout: int, finishing: bool):
+    """the answer arrives in the very engine iteration in which the timeout elapses: handle, handled, then loop"""
+    requires(both(0 <= retries, 1 <= timeout))
+    age = fresh_time("age")
+    assume(age >= 0)
+    Answered.calls = []
+    sock = SockRec()
+    h = GeckoVersionProtocolHandler(content=b"AVERS\x01", timeout=timeout, retry_count=retries, on_handled=on_answer, on_retry_failed=on_failed,
+                                    parms=("10.0.0.9", 10022, b"SPA", b"IOS"))
+    h.last_destination = ("10.0.0.9", 10022)
+    h._start_time = clock_now() - age
+    h._should_remove_handler = finishing           # what handle() of a final answer sets
+    h.handled(("10.0.0.9", 10022))
+    ensures("callback-called-once", Answered.calls == [("10.0.0.9", 10022)])
+    ensures("answer-re-arms-the-timeout", h._start_time == clock_now())
+    h.loop(sock)
+    ensures("no-further-transmission-once-answered", both(len(sock.sends) == 0, h._retry_count == retries))
